@@ -109,7 +109,7 @@ def _gen_times(rng, profile, n):
                 out.add(int(t))
         return sorted(out)
     base = rng.choice([1325376000, 1330473600 - 86400, 1356998400 - 2 * 86400, 1419811200, 1483228800 - 86400])
-    step = rng.choice([3600 * 6, 3600 * 12, 86400, 86400, 86400 * 7, 86400 * 30])
+    step = rng.choice([3600, 3600 * 3, 3600 * 6, 3600 * 12, 86400, 86400, 86400 * 7, 86400 * 30])
     out = set()
     t = base + rng.choice([0, 0, 3600 * 6, 3600 * 12, 1800])
     while len(out) < n:
@@ -304,6 +304,12 @@ def generate(rng, profile):
                             continue
                         if name == "obs" or is_clim_party or rng.random() < 0.5:
                             g[i][j][s_] = 0.0
+    if n_parties == 1 and rng.random() < p.get("p_no_id", 0.0):
+        # a single text file without a location/id column: verif numbers the stations itself
+        parties[0]["format"] = "text"
+        parties[0]["name"] = parties[0]["name"].replace(".nc", ".txt")
+        parties[0]["miss"] = [m for m in parties[0]["miss"] if m in TEXT_MISS] or ["-999"]
+        parties[0]["layout"]["no_id"] = True
     world = {"universe": {"times": times, "leadtimes": leadtimes, "locations": locs}, "variable": var,
              "inputs": parties[:n_inputs], "clim": parties[n_inputs] if has_clim else None}
     return world
@@ -392,7 +398,7 @@ def text_lines(world, party):
     if var.get("x1") is not None:
         lines.append("# x1: %s" % _fmt_num(var["x1"]))
     timecols = {"unixtime": ["unixtime"], "date": ["date"], "date_hour": ["date", "hour"]}[lay["timecol"]]
-    coord = timecols + [lay["ltcol"], lay["loccol"], "lat", "lon", lay["elevcol"]]
+    coord = timecols + [lay["ltcol"]] + ([] if lay.get("no_id") else [lay["loccol"]]) + ["lat", "lon", lay["elevcol"]]
     data_cols = [c for c in lay["colorder"] if c in party["fields"]]
     header = (data_cols + coord) if lay.get("cols_first") else (coord + data_cols)
     lines.append(lay["sep"].join(header))
@@ -423,7 +429,8 @@ def text_lines(world, party):
             tc = ["%d" % _date_of(t)]
         else:
             tc = ["%d" % _date_of(t), _fmt_num((t % 86400) / 3600.0)]
-        cc = tc + [_fmt_num(lt), "%d" % loc["id"], _fmt_num(loc["lat"]), _fmt_num(loc["lon"]), _fmt_num(loc["elev"])]
+        cc = tc + [_fmt_num(lt)] + ([] if lay.get("no_id") else ["%d" % loc["id"]]) + \
+            [_fmt_num(loc["lat"]), _fmt_num(loc["lon"]), _fmt_num(loc["elev"])]
         dc = []
         for f, (c, v) in enumerate(zip(data_cols, vals)):
             dc.append(_miss_token(party, i, j, s, f) if v is None else _fmt_num(v))
